@@ -40,13 +40,14 @@ type histUser struct {
 }
 
 type histEnv struct {
-	dir, ext string
-	debug    bool
-	errPage  bool
-	tpl      *textwire.Template
-	fp       string
-	state    textwire.VerifStateSnapshot
-	absFile  string
+	dir, ext      string
+	debug         bool
+	errPage       bool
+	brokenErrPage bool
+	tpl           *textwire.Template
+	fp            string
+	state         textwire.VerifStateSnapshot
+	absFile       string
 }
 
 func histFiles(ext string) map[string]string {
@@ -60,6 +61,13 @@ func histFiles(ext string) map[string]string {
 		"bad2" + ext:            "l1\nl2 {{ user.nosuch }}\n",
 		"errors/500" + ext:      "<custom error page>",
 		"plain" + ext:           "plain file {{ n + 1 }}",
+		"counter" + ext:         "{{ total = 3 }}{{ label = \"s\" }}counted {{ total }}",
+		"reader" + ext:          "total is {{ total }}",
+		"label" + ext:           "{{ total = \"text\" }}{{ label = 1 }}{{ total }}{{ label }}",
+		"badloop" + ext:         "<ul>@each(u in users)<li>{{ u.name }}</li>@end</ul>",
+		"goodloop" + ext:        "<ul>@each(u in users)<li>{{ u.name }}</li>@end</ul>@for(k = 0; k < 2; k++)[{{ k }}]@end",
+		"badfor" + ext:          "@for(k = 0; k < 4; k++)[{{ 6 / (2 - k) }}]@end",
+		"errors/broken" + ext:   "broken error page {{ reason }}",
 	}
 }
 
@@ -127,6 +135,20 @@ func histOps() []histOp {
 			out, err := textwire.EvaluateFile(h.absFile, map[string]any{"n": 1})
 			return fmt.Sprintf("out=%q err=%v", out, err)
 		}},
+		{"String(counter, nil)", str("counter", noData)},
+		{"String(reader, nil)", str("reader", noData)},
+		{"String(label, empty map)", str("label", func() map[string]any { return map[string]any{} })},
+		{"EvaluateString(reads total, nil)", func(h *histEnv) string {
+			out, err := textwire.EvaluateString("{{ total }}", nil)
+			return fmt.Sprintf("out=%q err=%v", out, err)
+		}},
+		{"String(badloop: 3rd pass fails)", str("badloop", func() map[string]any {
+			return map[string]any{"users": []map[string]any{{"name": "ann"}, {"name": "bob"}, {"nick": "x"}}}
+		})},
+		{"String(goodloop)", str("goodloop", func() map[string]any {
+			return map[string]any{"users": []map[string]any{{"name": "zed"}}}
+		})},
+		{"Response(badfor: 3rd pass fails)", resp("badfor", noData)},
 		{"EvaluateFile(missing)", func(h *histEnv) string {
 			out, err := textwire.EvaluateFile(h.absFile+".gone", nil)
 			return fmt.Sprintf("out=%q err=%v", out, err)
@@ -143,6 +165,9 @@ func (h *histEnv) load(c *core.Ctx) bool {
 	cfg := &config.Config{TemplateDir: h.dir, TemplateExt: h.ext, DebugMode: h.debug}
 	if h.errPage {
 		cfg.ErrorPagePath = "errors/500"
+	}
+	if h.brokenErrPage {
+		cfg.ErrorPagePath = "errors/broken"
 	}
 	var err error
 	if c.Guard(func() { h.tpl, err = textwire.NewTemplate(cfg) }) {
@@ -162,7 +187,7 @@ func init() {
 	core.Register(&core.Check{
 		ID:    "C16",
 		Level: "exploration",
-		Rule: "histories are all sequences (up to a length bound, random longer ones) over 16 concrete operations on a fixed template tree: String of a layout+component+loop page with struct data, of a page reading user.name with a Go struct, with a map holding name and Name, with a lower-case-only map, of two pages that fail at run time after producing output, of a missing name, of a layout name, of a page calling reverse/append/slice/prepend on data arrays; Response ok/failing/missing (the failing ones render the error page through the string API); EvaluateString ok/failing; EvaluateFile ok/missing - on 3 directory/extension settings x debug on/off x custom error page on/off. " +
+		Rule: "histories are all sequences up to length 2 (quick) / 3 (thorough), sampled ones a step longer and random ones of length 30, over 23 concrete operations on a fixed template tree: String of a layout+component+loop page with struct data, of a page reading user.name with a Go struct, with a map holding name and Name, with a lower-case-only map, of two pages that fail at run time after producing output, of a missing name, of a layout name, of a page calling reverse/append/slice/prepend on data arrays; Response ok/failing/missing (the failing ones render the error page through the string API); EvaluateString ok/failing; EvaluateFile ok/missing - on 3 directory/extension settings x debug on/off x custom error page none/valid/failing; also renders without data that assign at top level followed by renders that read the name, and loops that fail in a later pass followed by other loops. " +
 			"Each step's observation (output, or message+line+path; body and returned error for Response) is compared with the same operation issued first on a fresh load; after every step the verif hooks VerifFingerprint (loaded ASTs) and VerifState (configuration) must equal their values after load. distinct_nontrivial = distinct (configuration, history) pairs",
 		Assumptions: []string{
 			"the baseline of an operation is its result as first call after VerifResetConfig + NewTemplate in the same process",
@@ -173,15 +198,16 @@ func init() {
 			}
 		},
 		Sections: func(tier core.Tier, seed int64) []core.Section {
-			maxLen, nRandom := 3, 300
+			maxLen, nShort, nRandom := 2, 40000, 300
 			if tier == core.Thorough {
-				maxLen, nRandom = 4, 10000
+				maxLen, nShort, nRandom = 3, 3000000, 20000
 			}
 			nOps := len(ops)
-			nCfg := len(histConfigs) * 4
+			nCfg := len(histConfigs) * 6 // x debug on/off x error page none/valid/broken
 			runHistory := func(c *core.Ctx, cfgNo int, seq []int) {
 				hc := histConfigs[cfgNo%len(histConfigs)]
-				h := &histEnv{dir: hc.dir, ext: hc.ext, debug: (cfgNo/len(histConfigs))&1 == 1, errPage: (cfgNo/len(histConfigs))&2 == 2}
+				mode := cfgNo / len(histConfigs)
+				h := &histEnv{dir: hc.dir, ext: hc.ext, debug: mode%2 == 1, errPage: mode/2 >= 1, brokenErrPage: mode/2 == 2}
 				// the tree is written once per worker and configuration
 				key := fmt.Sprintf("tree-written-%d", cfgNo%len(histConfigs))
 				root := strings.Trim(strings.TrimPrefix(hc.dir, "./"), "/")
@@ -194,7 +220,7 @@ func init() {
 					c.State[key] = true
 				}
 				h.absFile, _ = filepath.Abs(filepath.Join(root, "plain"+hc.ext))
-				desc := map[string]any{"dir": hc.dir, "ext": hc.ext, "debug": h.debug, "custom_error_page": h.errPage}
+				desc := map[string]any{"dir": hc.dir, "ext": hc.ext, "debug": h.debug, "custom_error_page": h.errPage, "custom_error_page_fails": h.brokenErrPage}
 				var names []string
 				for _, o := range seq {
 					names = append(names, ops[o].name)
@@ -273,6 +299,15 @@ func init() {
 						runHistory(c, cfgNo, seq)
 					}})
 			}
+			// one step longer than the exhaustive part, sampled
+			secs = append(secs, core.Section{Name: fmt.Sprintf("random-histories-len%d", maxLen+1), N: nShort,
+				Run: func(c *core.Ctx, i int) {
+					seq := make([]int, maxLen+1)
+					for k := range seq {
+						seq[k] = c.Rng.Intn(nOps)
+					}
+					runHistory(c, c.Rng.Intn(nCfg), seq)
+				}})
 			secs = append(secs, core.Section{Name: "random-histories-len30", N: nRandom,
 				Run: func(c *core.Ctx, i int) {
 					seq := make([]int, 30)
